@@ -361,4 +361,9 @@ def build(tier, repo):
         rc.norm_discipline(r7, w, "coneprog", q)
     rc.cone_product_rule(r7, w, "coneprog", "conelp")
     r7.require(8)
+    from .. import solver_rules as sr5
+    r9 = chk.rule("C01-R9", "inside a loop over the 's' blocks the block order comes from the current block, not from element [0] of the list",
+                  "reported gap / objectives / slacks use every block with its own order")
+    chk.note_analysed("block_loops", sr5.block_loop_rule(r9, w))
+    r9.require(2)
     return chk
